@@ -45,7 +45,7 @@ func TestC10(t *testing.T) {
 	defer r.Finish(t)
 	var targets []Target
 	targets = append(targets, ParrotTargets(true)...)
-	for i := 0; i < mon.Pick(24, 600); i++ {
+	for i := 0; i < mon.Pick(80, 600); i++ {
 		targets = append(targets, RandomizedTarget(i))
 	}
 	for i, p := range AllParrots {
@@ -55,7 +55,7 @@ func TestC10(t *testing.T) {
 			}
 		}
 	}
-	for i := 0; i < mon.Pick(40, 1500); i++ {
+	for i := 0; i < mon.Pick(120, 1500); i++ {
 		targets = append(targets, CustomTarget(i))
 	}
 	type job struct {
@@ -144,9 +144,16 @@ func TestC10(t *testing.T) {
 	for k, v := range refusals {
 		r.Note(fmt.Sprintf("allowed refusal %s x%d", k, v))
 	}
+	// independent peer (optional): OpenSSL s_server; quick = 2 configurations per parrot,
+	// thorough = every applicable configuration for every target
+	if mon.Thorough() {
+		opensslSweep(r, targets, 0, "C10")
+	} else {
+		opensslSweep(r, ParrotTargets(true), 2, "C10")
+	}
 	r.Floor("completed", int64(len(jobs)*6/10))
 	r.Floor("hrr_completed", 20)
-	r.Assume("the in-repo tls.Server is the standards-compliant server; OpenSSL is not used in this tier")
+	r.Assume("the in-repo tls.Server (hooked where it must make a choice it would not make by itself) is the standards-compliant server; OpenSSL s_server, when an openssl binary exists, is a second, independent one (its absence is recorded, not a failure)")
 }
 
 func family(name string) string {
